@@ -30,8 +30,13 @@ META = {
             "any depth whose lines parse to their items' fields, the text aclgen prints compiles to compile_acl of the "
             "structured ACL (C06_text_roundtrip; C06_text_parse_printed, C06_text_tree_levels for the parser alone), two "
             "printed texts joined by a newline compile to compile_acl (A ++ B) incl. _merge_toplevel's uniters "
-            "(C06_text_concat); for arbitrary texts a + newline + b inserts a's then b's paths into one tree under computable "
-            "guards (C06_text_concat_paths); blank rows and indented '#' comments are irrelevant "
+            "(C06_text_concat); for arbitrary (not printed) texts a + newline + b inserts a's then b's paths into one tree under "
+            "computable guards (C06_text_concat_paths) and compiles to compile_acl of the items of a followed by the items of b "
+            "(C06_text_concat_general, C06_text_concat_acl; rows the item reader skips are skipped on both sides); aclgen's "
+            "line printer raw_rule is proved to print, for every row / flags / cant_delete / prio / generator names it can "
+            "draw, a line inside the guard of the round trip (C06_print_raw: the %params scanner, split_list of joined "
+            "lists, int(str(n))), so the round trip holds for every generated ACL with guards on the drawn atoms only "
+            "(C06_text_roundtrip_generated); blank rows and indented '#' comments are irrelevant "
             "(C06_comment_blank_irrelevant, C06_comment_blank_line_irrelevant) while a '#' comment in column 0 is refuted to "
             "be (C06_col0_comment_irrelevant_refuted: it detaches the children below it). Correspondence: Coq evaluates model==implementation and the declarative predicates "
             "on the real apply_acl(tree, compile_acl_text(text, vendor), fatal_acl, exclusive) outputs (also "
@@ -49,10 +54,10 @@ META = {
                  "vm_compute differential check on real outputs",
     "note": "The filtering theorems quantify over compiled rule sets and structured ACLs; C06_text_roundtrip / "
             "C06_text_concat carry them over to compile_acl_text of printed ACL texts. Tied to the code by the correspondence "
-            "run only: the model of the text front end itself (as every model), the pattern compiler, and that aclgen's "
-            "line printer raw_rule produces lines inside the guard acl_ok (checked in Coq per generated ACL, not proved for "
-            "the printer as a function). Partial: for arbitrary (not printed) texts the concatenation is proved at the level "
-            "of inserted paths only (C06_text_concat_general_statement is left unproved). Not modelled: the effect of "
+            "run only: the model of the text front end itself (as every model), the pattern compiler, and that Model/AclText.v "
+            "print_raw is aclgen's raw_rule (the guard acl_okb is still evaluated in Coq on every generated ACL; C06_print_raw "
+            "proves it for print_raw on rows without a percent sign that are not ignore rows, generator names without blanks and "
+            "commas, non-empty cant_delete lists). Not modelled: the effect of "
             "%context, re.error for rows outside the rule language, int() spellings of %prio other than decimal digits. "
             "Monotonicity fails on the unchanged code: "
             "six known findings C06/monotone/<cause>, each reproduced in the model with the same reason code.",
@@ -320,15 +325,60 @@ def run_text_stream(ctx):
                 signature="C06/model-impl-disagree/compile_acl_text",
                 what="Coq model of compile_acl_text (text front end) and the implementation differ on the compiled structure",
                 replay={"text_case": tcases[i], "impl": outs[i], "correspondence": "compile_acl_text"}, no_input=True))
+    printer_cov = run_printer_check(ctx, tcases)
     kinds, results = {}, {}
     for c, o in zip(tcases, outs):
         kinds[c["kind"]] = kinds.get(c["kind"], 0) + 1
         r = o.get("err", "rules")
         results[r] = results.get(r, 0) + 1
-    return {"text_cases": len(tcases), "text_kind_histogram": kinds, "text_result_histogram": results,
+    return {"text_cases": len(tcases), "text_kind_histogram": kinds, "text_result_histogram": results, **printer_cov,
             "text_disagreements": len(res["agree"]), "text_roundtrip_failures": len(res["holds"]),
             "text_distinct": len({(c["ctext"]) for c in tcases}),
             "text_max_rules": max((acltext.rules_size(o["rules"]) for o in outs if "rules" in o), default=0)}
+
+
+PRINTER_IMPORTS = ("From Coq Require Import List String Bool Arith.\nFrom Annet Require Import Base.Str Model.Acl "
+                   "Model.AclText Proofs.AclTextProofs Proofs.AclTextPrint.\nFrom Annet Require Model.Json.\n"
+                   "Import ListNotations.\nOpen Scope string_scope.")
+
+
+def coq_gitem(it: dict) -> str:
+    cd = copt(None if it.get("cd") is None else clist(cbool(b) for b in it["cd"]))
+    return (f"(GItem {cstr(it['pat'])} {cbool(bool(it.get('glob')))} {cd} {cbool(bool(it.get('cd_bare')))} "
+            f"{core.cnat(it.get('prio', 0))} {cbool(bool(it.get('prio_explicit')))} "
+            f"{clist(cstr(g) for g in it.get('gens', []))} {clist(coq_gitem(k) for k in it.get('kids', []))})")
+
+
+def has_ign(items: list[dict]) -> bool:
+    return any(it.get("ign") or has_ign(it.get("kids", [])) for it in items)
+
+
+def run_printer_check(ctx, tcases: list[dict]) -> dict:
+    """Model/AclText.v print_raw == aclgen.raw_rule, and the guard of C06_text_roundtrip_generated, on every
+    generated structured ACL without '!' lines: Coq compares the lines of aitem_of (print_raw) with the lines
+    aclgen printed and evaluates gitem_okb (guards on the drawn atoms only)."""
+    acls, seen = [], set()
+    for c in tcases:
+        if c["A"] is not None and not has_ign(c["A"]):
+            t = aclgen.acl_text(c["A"])
+            if t not in seen:
+                seen.add(t)
+                acls.append(c["A"])
+    if not acls:
+        return {"printer_cases": 0}
+    terms = [f"({clist(coq_gitem(it) for it in a)}, {cstr(aclgen.acl_text(a))})" for a in acls]
+    preds = {"printer": "fun c => String.eqb (acl_text (map aitem_of (fst c))) (snd c)",
+             "atoms": "fun c => forallb gitem_okb (fst c)"}
+    res = core.run_case_files(ID, "(list gitem * string)", PRINTER_IMPORTS, preds, terms, per_file=40, tag="printer")
+    for i in res["printer"][:1]:
+        ctx.add_violation(core.Violation(
+            signature="C06/text-printer-model",
+            what="Model/AclText.v print_raw / acl_text differ from harness/aclgen.py raw_rule / acl_text on a generated ACL",
+            replay={"printer_case": acls[i], "correspondence": "printer-model"}, no_input=True))
+    # ACLs whose drawn atoms are outside gitem_okb are only counted: for them the round trip rests on the guard
+    # acl_okb, which the text stream evaluates on every generated ACL anyway
+    return {"printer_cases": len(acls), "printer_model_disagreements": len(res["printer"]),
+            "printer_atoms_outside_guard": len(res["atoms"])}
 
 
 def unexpected(o: dict) -> str | None:
@@ -513,6 +563,14 @@ def run(ctx):
 
 
 def replay(ctx, doc):
+    if "printer_case" in doc["replay"]:
+        a = doc["replay"]["printer_case"]
+        term = f"({clist(coq_gitem(it) for it in a)}, {cstr(aclgen.acl_text(a))})"
+        res = core.run_case_files(ID, "(list gitem * string)", PRINTER_IMPORTS,
+                                  {"printer": "fun c => String.eqb (acl_text (map aitem_of (fst c))) (snd c)"}, [term],
+                                  tag="replay")
+        print("printer model == aclgen:", not res["printer"])
+        return 1 if res["printer"] else 0
     if "text_case" in doc["replay"]:
         c = doc["replay"]["text_case"]
         o = core.run_impl("c06_runner.py", [{"vendor": c["vendor"], "ctext": c["ctext"]}])[0]
